@@ -464,8 +464,22 @@ def hierarchy_cases(ctx, n):
     while made < n and attempts < n * 10:
         attempts += 1
         used = set()
-        shape = rng.choice(['chain', 'siblings', 'union', 'chain'])
-        if shape == 'union':
+        shape = rng.choice(['chain', 'siblings', 'union', 'chain', 'diamond'])
+        if shape == 'diamond':
+            # Alpha <- Beta, Gamma <- Delta(Beta, Gamma): Delta is reached through both of its bases
+            base = plain('Alpha', [], [], own_params(used, rng.randint(0, 1)), False)
+            b = plain('Beta', ['Alpha'], base['params'], own_params(used, 1), False)
+            g = plain('Gamma', ['Alpha'], base['params'], own_params(used, 1), False)
+            own_b = [p for p in b['params'] if p not in base['params']]
+            own_g = [p for p in g['params'] if p not in base['params']]
+            d = plain('Delta', ['Beta', 'Gamma'], base['params'] + own_b + own_g, own_params(used, rng.randint(0, 1)), False)
+            spec = [base, b, g, d]
+            rest = [b, g, d]
+            rng.shuffle(rest)
+            rest.sort(key=lambda c: c['name'] == 'Delta')
+            spec = [base] + rest
+            t = rng.choice([('cls', 'Alpha'), ('seq', 'list', ('cls', 'Alpha')), ('cls', 'Beta')])
+        elif shape == 'union':
             a = plain('Alpha', [], [], own_params(used, rng.randint(1, 2)), rng.random() < 0.6)
             b = plain('Beta', [], [], own_params(used, rng.randint(1, 2)), rng.random() < 0.6)
             spec = [a, b]
